@@ -198,14 +198,19 @@ def measure(sizes, dr_values=(1.0,), with_images=True, nonneg_max_n=60, only=Non
 
             def err3(rec, ref, oy=c0, ox=c0):
                 ks = np.arange(n)[zones["ring"]]
+                kh = ks[ox + ks < rec.shape[1]]
+                kv = ks[oy + ks < rec.shape[0]]
                 kd = np.unique(np.round(ks / np.sqrt(2)).astype(int))
                 kd = kd[(kd > 0) & (oy + kd < rec.shape[0]) & (ox + kd < rec.shape[1])]
-                return float(max(np.abs(rec[oy, ox + ks] - ref[c0, c0 + ks]).max(), np.abs(rec[oy + ks, ox] - ref[c0 + ks, c0]).max(),
+                return float(max(np.abs(rec[oy, ox + kh] - ref[c0, c0 + kh]).max(), np.abs(rec[oy + kv, ox] - ref[c0 + kv, c0]).max(),
                                  np.abs(rec[oy + kd, ox + kd] - ref[c0 + kd, c0 + kd]).max()) / ref.max())
+            # frame cut by 4 rows above, 6 below and 2 columns on the left: the largest vertical and horizontal extents differ, so the
+            # output quadrant is larger than the one the radial distributions were extracted from
             oy, ox = c0 - 4, c0 - 2
+            cut = (slice(4, -6), slice(2, None))
             seqs = [("centred", dict(), proj, src, c0, c0, c0, c0),
-                    ("offset-same", dict(origin=(oy, ox)), proj[4:, 2:], src[4:, 2:], oy, ox, oy, ox),
-                    ("offset-full", dict(origin=(oy, ox), out="full"), proj[4:, 2:], src[4:, 2:], None, None, oy, ox)]
+                    ("offset-same", dict(origin=(oy, ox)), proj[cut], src[cut], oy, ox, oy, ox),
+                    ("offset-full", dict(origin=(oy, ox), out="full"), proj[cut], src[cut], None, None, oy, ox)]
             for tag, kw, P_, S_, ry, rx, _, _ in seqs:
                 for order in (2, 6):                          # the order-2 call first: a stale cache from it must not leak
                     key = f"rbasex/order={order},{tag}|ring_hi"
@@ -400,6 +405,11 @@ def measure_random(rng, count, direction, nonneg_max_n=60):
             rec["dtype"] = "int64"
         try:
             got = np.atleast_2d(quiet(f, data, direction=direction, dr=dr, **opts))
+            if rec.get("dtype") == "int64":          # low counts too: the integer image is transformed as its float64 copy
+                low = np.round(data / 1e7).astype(np.int64)
+                gi = np.atleast_2d(quiet(f, low, direction=direction, dr=dr, **opts)).astype(float)
+                gf = np.atleast_2d(quiet(f, low.astype(np.float64), direction=direction, dr=dr, **opts))
+                rec["int_vs_float"] = float(np.abs(gi - gf).max() / max(1e-300, np.abs(gf).max()))
             rec["error"] = float((np.abs(got - amp * b[None, :]) / amp)[:, sl].max() / np.abs(b).max())
         except TypeError as e:
             if rec.get("dtype") == "int64":
